@@ -261,7 +261,43 @@ def r4(F, rep):
     rep.add("C19-R4", "normalisation", f.loc(), "average scaled by %s, variance by %s" % (ks.get("this.runave"), ks.get("this.runave_variance")), okn, func=f.q)
 
 
+def named_output(F, rep, rid="C19-R6"):
+    rep.rule(rid, "an output goes to the file its guard names: where a call that writes a file (write_*() or output_stream()) "
+                  "takes a string member as the file name and is guarded by tests of string members (non-empty, not \"none\"), "
+                  "the member passed is one of the members tested -- otherwise one output replaces another under its name "
+                  "(the OpenDX text written over the multicolumn histogram file)")
+    from .rules_c03 import all_guards
+    n = 0
+    for f in sorted(F.funcs.values(), key=lambda g: g.q):
+        if f.body is None or "/src/" not in f.file or not f.cls:
+            continue
+        for c in X.calls(f):
+            nm = X.callee_name(c) or ""
+            if not (nm.startswith("write_") or nm == "output_stream"):
+                continue
+            args = X.call_args(c)
+            if not args:
+                continue
+            a = X.strip(args[0])
+            if a["k"] != "MemberExpr" or a.get("dk") != "Field" or "string" not in f.typestr(a.get("t")):
+                continue
+            tested = set()
+            for cn, pol in all_guards(f, c):
+                for x in f.walk(cn):
+                    if x["k"] == "MemberExpr" and x.get("dk") == "Field" and "string" in f.typestr(x.get("t")):
+                        tested.add(x["n"])
+            if not tested:
+                continue
+            n += 1
+            ok = a["n"] in tested
+            rep.add(rid, "%s|%s|%s" % (f.q, nm, "+".join(sorted(tested))), f.loc(c), "%s: %s(%s, ...) under a test of %s" % (f.q, nm, a["n"], sorted(tested)), ok,
+                    detail="the file named by the tested member is never written, and the file named by the other member is replaced by this output", func=f.q)
+    if n < 4:
+        raise AnalysisBroken("%s: only %d guarded file outputs with member names found" % (rid, n))
+
+
 def run(F, rep, tier):
+    named_output(F, rep)
     r1_r2(F, rep)
     r3(F, rep)
     r4(F, rep)
